@@ -6,6 +6,7 @@ import J5V.Props.C08
 #print axioms J5V.Props.C08.C08_scalar_conforms
 #print axioms J5V.Props.C08.C08_wellformed_partial
 #print axioms J5V.Props.C08.C08_parse_is_encoder_tree
+#print axioms J5V.Props.C08.C08_chunk_bytes_verbatim
 #print axioms J5V.Props.C08.C08_any_j5json_unchecked
 #print axioms J5V.Props.C08.C08_conforms_partial
 #print axioms J5V.Props.C08.C08_any_shape
